@@ -1113,7 +1113,7 @@ impl<'c, T: Sut> Sim<'c, T> {
     }
 
     fn op_reserve_regions(&mut self, t: usize, srcs: &[usize]) -> R<()> {
-        if !self.caps.resreg || self.caps.is_stack {
+        if !self.caps.resreg {
             return Ok(());
         }
         let ti = t % self.pop.len();
